@@ -561,6 +561,9 @@ func TestVerif_C09(t *testing.T) {
 					for b := range junk {
 						junk[b] = byte(rng.Uint32())
 					}
+					if junk[0] == 0x16 || junk[0] == 0x47 {
+						junk[0] ^= 0x80 // not the start of a TLS record or of "GET": such a stub would be waited for and dropped, not relayed
+					}
 				}
 				c.Write(junk)
 				vk.Wait()
